@@ -74,6 +74,16 @@ func (s c16Spec) ops(st *c16State) (out []opx) {
 			st.hasIndex = true
 			return nil
 		}})
+		// ... and created while a transaction that already wrote the column is open
+		if len(rows) > 0 {
+			var cerr error
+			mk := model.Act{Op: "call", Key: "createSortIndex(sorted on s)", Call: func() error {
+				cerr = w.C.CreateSortIndex("sorted", "s")
+				st.hasIndex = cerr == nil
+				return cerr
+			}}
+			out = append(out, txnOp(w, []model.Act{{Op: "put", Off: rows[0], W: []model.Write{{Col: "s", V: model.Val{S: "b"}}}}, mk, {Op: "insert", W: sw("a")}}, false))
+		}
 	}
 	return out
 }
@@ -173,7 +183,7 @@ func init() {
 	eng.Register(&eng.Check{
 		Prop:  "C16",
 		Level: "model_checking",
-		Rule: "every history up to depth d over {insert a / b / without the string, overwrite a / b, concatenating merge, delete (offset reuse), createSortIndex} on strings over {a,b} " +
+		Rule: "every history up to depth d over {insert a / b / without the string, overwrite a / b, concatenating merge, merge+overwrite in one transaction, delete (offset reuse), createSortIndex (between transactions and from inside one that already wrote the column)} on strings over {a,b} " +
 			"(duplicates forced) in one and several blocks; at every node Ascend runs after each of 10 filter chains (length 0-2) and must visit exactly the selected rows holding a value, once each, " +
 			"values non-decreasing and readers positioned; states = distinct (model state, index present)",
 		Assumptions: []string{"only ascending iteration exists in the API"},
